@@ -376,13 +376,17 @@ def r_any(early):
 def r_states_container(kind):
     def r(states, events):
         if kind.startswith("enum"):
-            members = ", ".join(f"{i!r}: {v!r}" for (i, v, _a, _b) in states)
+            strm = kind.startswith("enum-str")
+            members = ", ".join(f"{i!r}: {(f'val{v}' if strm else v)!r}" for (i, v, _a, _b) in states)
             ini = next(i for (i, _v, a, _b) in states if a)
             fins = [i for (i, _v, _a, b) in states if b]
-            head = [f"_E = enum.Enum('_E', {{{members}}})",
-                    f"_ = States.from_enum(_E, initial=_E.{ini}, "
-                    f"final=[{', '.join('_E.' + f for f in fins)}]"
-                    f"{', use_enum_instance=True' if kind == 'enum-instance' else ''})"]
+            # a single final state is given as the member itself, as in the from_enum docstring
+            # (for a str-mixin Enum the member is itself an iterable of characters)
+            single = strm and len(fins) == 1
+            final = f"_E.{fins[0]}" if single else f"[{', '.join('_E.' + f for f in fins)}]"
+            head = [f"_E = enum.Enum('_E', {{{members}}}{', type=str' if strm else ''})",
+                    f"_ = States.from_enum(_E, initial=_E.{ini}, final={final}"
+                    f"{', use_enum_instance=True' if kind.endswith('instance') else ''})"]
         else:
             items = ", ".join(f"{i!r}: State(value={v!r}, initial={a}, final={b})"
                               for (i, v, a, b) in states)
@@ -406,6 +410,8 @@ RENDERERS = [
     ("decorator", r_decorator), ("from_.any-late", r_any(False)), ("from_.any-early", r_any(True)),
     ("States.from_enum", r_states_container("enum")),
     ("States.from_enum-instance", r_states_container("enum-instance")),
+    ("States.from_enum-str", r_states_container("enum-str")),
+    ("States.from_enum-str-instance", r_states_container("enum-str-instance")),
     ("States(dict)", r_states_container("dict")),
 ]
 
@@ -448,6 +454,8 @@ def structure(cls):
     for s in cls.states:
         v = s.value
         v = v.value if isinstance(v, enum.Enum) else v
+        if isinstance(v, str) and v.startswith("val") and v[3:].isdigit():
+            v = int(v[3:])    # str-mixin Enum renderings carry the abstract value as text
         out["states"].append((s.id, v, s.initial, s.final))
         cl = []
         for t in s.transitions:
@@ -556,12 +564,53 @@ def multi_event_family():
         "event='e1  e2'": base + [t_to(at, "event='e1  e2'") for at in ats],
         "event=' e1 e2 '": base + [t_to(at, "event=' e1 e2 '") for at in ats],
         "event=['e1 ', ' e2']": base + [t_to(at, "event=['e1 ', ' e2']") for at in ats],
+        # id-less Event objects declared first (named by their attribute later), several of
+        # them on one transition
+        "event=[Event(), Event()]": ["e1 = Event(name='First')", "e2 = Event(name='Second')"] +
+        base + [t_to(at, "event=[e1, e2]") for at in ats],
+        "event=[Event(), str]": ["e1 = Event(name='First')"] + base +
+        [t_to(at, "event=[e1, 'e2']") for at in ats],
+    }
+    return m, styles
+
+
+def multi_any_family():
+    """One from_.any() list serving two events (alias / shared list), with a guard, next to an
+    ordinary ring: equivalent to explicit transitions from every non-final state for both."""
+    states = [("a", 1, True, False), ("b", 2, False, False), ("c", 3, False, False),
+              ("f", 4, False, True)]
+    ring = [AT(("a", "b", (), ())), AT(("b", "c", (), ())), AT(("c", "a", (), ()))]
+    anys = [AT((s, "c", ("g1",), ())) for s in ("a", "b", "c")]
+    fin = [AT(("c", "f", (), ()))]
+    m_tr = []
+    for at in ring:
+        m_tr.append(T(at.src, at.dst, ("step",)))
+    for at in anys:
+        m_tr.append(T(at.src, at.dst, ("e1", "e2"), cond=at.cond))
+    for at in fin:
+        m_tr.append(T(at.src, at.dst, ("fin",)))
+    sts = tuple(S(i, initial=ini, final=fn, value=v) for (i, v, ini, fn) in states)
+    m = M(states=sts, trans=tuple(m_tr),
+          provided=(("sm", "g1", ""), ("sm", "g2", ""), ("sm", "after_transition", "")))
+    base = states_attr(states) + ["step = " + " | ".join(t_to(at) for at in ring),
+                                  "fin = " + t_to(fin[0])]
+    styles = {
+        "any:two-attributes": base + ["e1 = e2 = c.from_.any(cond='g1')"],
+        "any:alias-later": base + ["e1 = c.from_.any(cond='g1')", "e2 = e1"],
+        "any:explicit": base + ["e1 = e2 = " + " | ".join(t_to(at) for at in anys)],
+        "any:explicit-event-list": base + [t_to(at, "event=['e1', 'e2']") for at in anys],
     }
     return m, styles
 
 
 def worker(block):
     res = BlockResult()
+    if block[0] == "multi-any":
+        m, styles = multi_any_family()
+        for name, lines in styles.items():
+            _check_rendering(res, m, name, lines, {"multi_any": name})
+        res.stats["states"] += 1
+        return res
     if block[0] == "multi":
         m, styles = multi_event_family()
         for name, lines in styles.items():
@@ -613,7 +662,9 @@ def _check_rendering(res, m, rname, lines, sc, inherit=False):
                 res.violation({"category": "structure", "renderer": rname}, sc,
                               f"[{rname}] {msg}\n" + "\n".join(lines))
                 return
-            msg, steps = behaviour(cls, m, inst_enum=(rname == "States.from_enum-instance"))
+            msg, steps = behaviour(cls, m, inst_enum=rname in (
+                "States.from_enum-instance", "States.from_enum-str",
+                "States.from_enum-str-instance"))
             res.stats["transitions"] += steps
             if msg:
                 res.violation({"category": "behaviour", "renderer": rname}, sc,
@@ -626,7 +677,7 @@ def run(tier, seed):
     rep = Report(PID, tier, seed)
     n = len(abstract_machines(tier))
     step = 12
-    blocks = [(tier, i, min(i + step, n)) for i in range(0, n, step)] + [("multi",)]
+    blocks = [(tier, i, min(i + step, n)) for i in range(0, n, step)] + [("multi",), ("multi-any",)]
     total, capped = run_blocks(worker, blocks, seed=seed)
     rep.add_violations(total.violations, total.hist_sig)
     rep.harness_errors = total.stats.get("harness_errors", 0)
@@ -651,6 +702,10 @@ def run(tier, seed):
 
 def replay(sc):
     res = BlockResult()
+    if "multi_any" in sc:
+        m, styles = multi_any_family()
+        _check_rendering(res, m, sc["multi_any"], styles[sc["multi_any"]], sc)
+        return res.violations[0]["message"] if res.violations else None
     if "multi" in sc:
         m, styles = multi_event_family()
         _check_rendering(res, m, sc["multi"], styles[sc["multi"]], sc)
